@@ -5,6 +5,7 @@ import (
 	"net"
 	"time"
 
+	"github.com/IrineSistiana/mosproxy/internal/dnsmsg"
 	"github.com/IrineSistiana/mosproxy/internal/verifrt"
 )
 
@@ -224,6 +225,54 @@ func VerifH_C06_TimeoutThenReuse() {
 		verifrt.Reach("ex2-ok")
 		verifrt.Assert(r2.Header.ID == id2 && r2.Header.RCode == 2, "exchange 2 got the reply to its own query, not a stale one")
 	}
+	for _, c := range conns {
+		verifrt.Assert(!c.violated, "a connection never carries a second query before the previous reply was consumed")
+	}
+}
+
+// VerifH_C06_ConcurrentExchanges: two exchanges at the same time on a transport that has ONE idle connection pooled
+// (left by an earlier exchange). Pre-emption is possible before every lock / channel operation (≤ 2 deviations from
+// round-robin): the idle connection is handed to at most one of them (the other dials), no connection ever carries
+// two outstanding queries, and against the healthy server both get the reply to their own query.
+func VerifH_C06_ConcurrentExchanges() {
+	verifrt.Unwind(120)
+	verifrt.SchedBound(2)
+	verifrt.PreemptSync()
+	verifrt.NoTimers() // idle time-outs (seconds) do not strike during the scenario; C06_ConnSteps covers them
+	verifrt.CtxNoExpiry = true
+	var conns []*vNetConn
+	t := NewReuseConnTransport(ReuseConnOpts{DialContext: func(ctx context.Context) (net.Conn, error) {
+		c := newVNetConn()
+		c.checkClean = true
+		conns = append(conns, c)
+		go vServePlain(c)
+		return c, nil
+	}})
+	r0, err0 := t.ExchangeContext(context.Background(), vQuery12(9, 3))
+	verifrt.Assert(err0 == nil && r0 != nil && r0.Header.RCode == 3, "warm-up exchange answered")
+	verifrt.Quiesce()
+	verifrt.Assert(len(t.idleConns) == 1, "its connection is pooled")
+	id := []uint16{verifrt.U16("id1"), verifrt.U16("id2")}
+	type exRes struct {
+		i   int
+		m   *dnsmsg.Msg
+		err error
+	}
+	res := make(chan exRes, 2)
+	for i := 0; i < 2; i++ {
+		i := i
+		go func() {
+			m, err := t.ExchangeContext(context.Background(), vQuery12(id[i], byte(i+1)))
+			res <- exRes{i, m, err}
+		}()
+	}
+	for k := 0; k < 2; k++ {
+		r := <-res
+		verifrt.Assert(r.err == nil && r.m != nil, "healthy server, no deadline: the exchange succeeds")
+		verifrt.Assert(r.m.Header.ID == id[r.i] && int(r.m.Header.RCode) == r.i+1, "and gets the reply to its own query")
+	}
+	verifrt.Reach("both-answered")
+	verifrt.Assert(len(conns) <= 2, "at most one extra connection is dialled")
 	for _, c := range conns {
 		verifrt.Assert(!c.violated, "a connection never carries a second query before the previous reply was consumed")
 	}
